@@ -237,10 +237,12 @@ QualFn(alias, cols, tup) ==
 SAgg(e, fns) ==
   CASE e.k = "Call" /\ LowerName(e.fn) = "count" /\ (e.args = <<>> \/ e.args = <<SStar>>) -> AggV("count", [i \in DOMAIN fns |-> B(TRUE)])
     [] e.k = "CountIf" -> AggV("countif", [i \in DOMAIN fns |-> EvalS(e.x, SRow(fns[i]))])
+    [] e.k = "Call" /\ e.fn = "countIf" /\ Len(e.args) = 1 ->                       \* ClickHouse's spelling of the same
+         AggV("countif", [i \in DOMAIN fns |-> EvalS(e.args[1], SRow(fns[i]))])
     [] e.k = "Call" /\ e.fn \in {"sum", "min", "max"} /\ Len(e.args) = 1 ->
          AggV(e.fn, [i \in DOMAIN fns |-> EvalS(e.args[1], SRow(fns[i]))])
     [] OTHER -> IF fns = <<>> THEN Null ELSE EvalS(e, SRow(fns[1]))
-IsAggItem(e) == (e.k = "Call" /\ (LowerName(e.fn) = "count" \/ e.fn \in {"sum", "min", "max"})) \/ e.k = "CountIf"
+IsAggItem(e) == (e.k = "Call" /\ (LowerName(e.fn) = "count" \/ e.fn \in {"sum", "min", "max", "countIf"})) \/ e.k = "CountIf"
 
 RECURSIVE SSelect(_, _), SSource(_, _)
 
